@@ -97,7 +97,8 @@ def close(a, b, rtol=RTOL, atol=1e-10):
         fin = np.isfinite(a) & np.isfinite(b)
         if not np.array_equal(np.isnan(a), np.isnan(b)):
             return False
-        scale = max(1.0, float(np.max(np.abs(b[fin]))) if fin.any() else 1.0)
+        # relative to the scale of the reference itself (no absolute floor: data may be 2^-60 small)
+        scale = float(np.max(np.abs(b[fin]))) if fin.any() else 0.0
         return bool(np.all(np.abs(a[fin] - b[fin]) <= atol * scale + rtol * np.abs(b[fin])))
 
 
@@ -105,13 +106,31 @@ def close(a, b, rtol=RTOL, atol=1e-10):
 def build_series(spec):
     import nitime.timeseries as ts
     rs = np.random.RandomState(spec["seed"])
-    data = rs.randn(*spec["shape"])
+    # magnitudes across scales (a power of two keeps every linear result exactly scalable), non-zero offset
+    data = (rs.randn(*spec["shape"]) + spec.get("offset", 0.0)) * 2.0 ** spec.get("scale_pow", 0)
+    lay = spec.get("layout", "C")
+    if lay == "F":
+        data = np.asfortranarray(data)
+    elif lay == "strided":          # a non-contiguous view: every second sample of a twice as long array
+        big = np.empty(tuple(spec["shape"][:-1]) + (2 * spec["shape"][-1],))
+        big[..., ::2] = data
+        big[..., 1::2] = 1e30
+        data = big[..., ::2]
+    elif lay == "list":
+        data = data.tolist()
     x, t0 = float.fromhex(spec["x"]), float.fromhex(spec["t0"])
     if spec["mode"] == "interval":
         T = ts.TimeSeries(data, sampling_interval=x, t0=t0, time_unit=spec["u"])
     else:
         T = ts.TimeSeries(data, sampling_rate=x, t0=t0, time_unit=spec["u"])
-    return T, data
+    der = spec.get("derive")
+    if der == "copy":               # TimeSeries.copy(): rebuilt through the time=<UniformTime> constructor path
+        T = T.copy()
+    elif der == "time":             # built from the UniformTime axis of the first one
+        T = ts.TimeSeries(np.asarray(data), time=T.time, time_unit=spec["u"])
+    elif der == "positional":
+        T = ts.TimeSeries(data, t0, x, None, None, None, spec["u"]) if spec["mode"] == "interval" else T
+    return T, np.asarray(T.data)
 
 
 def run_axis(spec):
@@ -156,15 +175,22 @@ def run_axis(spec):
     with FsRec() as fr, warnings.catch_warnings():
         warnings.simplefilter("ignore")
         # ---- normalisation
-        N = nta.NormalizationAnalyzer(T)
+        alt = spec.get("alt", False)
+        if alt:
+            N = nta.NormalizationAnalyzer()
+            N.set_input(T)
+        else:
+            N = nta.NormalizationAnalyzer(T)
         z = out("NormalizationAnalyzer.z_score", "ONorm", lambda: N.z_score)
         p = out("NormalizationAnalyzer.percent_change", "ONorm", lambda: N.percent_change)
         if z is not None:
-            diff("NormalizationAnalyzer.z_score", lambda: (z.data, tsu.zscore(data)))
+            diff("NormalizationAnalyzer.z_score", lambda: (
+                z.data, (data - data.mean(-1)[..., None]) / data.std(-1)[..., None]))      # the definition, not nitime.utils
         if p is not None:
-            diff("NormalizationAnalyzer.percent_change", lambda: (p.data, tsu.percent_change(data)))
+            diff("NormalizationAnalyzer.percent_change", lambda: (
+                p.data, (data / data.mean(-1)[..., None] - 1) * 100))
         # ---- Hilbert
-        H = nta.HilbertAnalyzer(T)
+        H = nta.HilbertAnalyzer(input=T) if alt else nta.HilbertAnalyzer(T)
         ha = out("HilbertAnalyzer.analytic", "OAnalytic", lambda: H.analytic)
         for nm in ("amplitude", "phase", "real", "imag"):
             out("HilbertAnalyzer." + nm, "ODerived", lambda nm=nm: getattr(H, nm))
@@ -208,7 +234,8 @@ def run_axis(spec):
         if nd <= 2:     # algorithms.boxcar_filter takes 1-d / 2-d arrays only
             out("FilterAnalyzer.filtered_boxcar", "OFilt", lambda: nta.FilterAnalyzer(T, lb=lb, ub=ub).filtered_boxcar)
         # ---- spectral
-        S = nta.SpectralAnalyzer(T)
+        # alt: a method dict without 'Fs' (the analyzer has to take the rate from the series)
+        S = nta.SpectralAnalyzer(input=T, method={"this_method": "welch", "NFFT": 64}) if alt else nta.SpectralAnalyzer(T)
         if n >= 64:
             def d_psd():
                 f, pxx = S.psd
@@ -229,8 +256,8 @@ def run_axis(spec):
             def d_sf():
                 f, sp = S.spectrum_fourier
                 import scipy.fftpack as fp
-                fref = tsu.get_freqs.__wrapped__(fs, n)
-                return np.concatenate([np.ravel(f), np.ravel(sp)]), np.concatenate([fref, np.ravel(fp.fft(data)[..., :fref.shape[0]])])
+                fref = np.linspace(0, fs / 2, n // 2 + 1)
+                return np.concatenate([np.ravel(f), np.ravel(sp)]), np.concatenate([fref, np.ravel(np.fft.fft(data)[..., :fref.shape[0]])])
             diff("SpectralAnalyzer.spectrum_fourier", d_sf)
         if nd == 2 and n >= 64:
             def d_cpsd():
@@ -248,7 +275,11 @@ def run_axis(spec):
         if nd == 2:
             c = data.shape[0]
             # ---- correlation
-            C = nta.CorrelationAnalyzer(T)
+            if alt:
+                C = nta.CorrelationAnalyzer()
+                C.set_input(T)
+            else:
+                C = nta.CorrelationAnalyzer(T)
             xc = out("CorrelationAnalyzer.xcorr", "OXcorr", lambda: C.xcorr)
             xn = out("CorrelationAnalyzer.xcorr_norm", "OXcorr", lambda: C.xcorr_norm)
             diff("CorrelationAnalyzer.corrcoef", lambda: (C.corrcoef, np.corrcoef(data)))
@@ -278,7 +309,7 @@ def run_axis(spec):
                 diff("SNRAnalyzer.mt_frequencies", lambda: (SN.mt_frequencies, np.fft.rfftfreq(n) * fs))
             # ---- coherence family
             if n >= 96:
-                CO = nta.CoherenceAnalyzer(T)
+                CO = nta.CoherenceAnalyzer(input=T, method={"this_method": "welch", "NFFT": 64, "n_overlap": 32}) if alt else nta.CoherenceAnalyzer(T)
 
                 def d_coh():
                     fr_, cr = tsa.get_spectra.__wrapped__(data, method={"this_method": "welch", "Fs": fs, "NFFT": 64, "n_overlap": 32})
@@ -288,7 +319,7 @@ def run_axis(spec):
                     return np.concatenate([np.ravel(CO.frequencies), np.ravel(got[iu])]), np.concatenate([np.ravel(fr_), np.ravel(ref[iu])])
                 diff("CoherenceAnalyzer.coherency", d_coh)
                 ij = [(0, c - 1), (0, 0)]
-                SP = nta.SparseCoherenceAnalyzer(T, ij=ij)
+                SP = nta.SparseCoherenceAnalyzer(time_series=T, ij=ij, method={"this_method": "welch", "NFFT": 64}) if alt else nta.SparseCoherenceAnalyzer(T, ij=ij)
 
                 def d_sparse():
                     got = SP.coherency
@@ -299,7 +330,7 @@ def run_axis(spec):
                 diff("SparseCoherenceAnalyzer.coherency", d_sparse)
                 SE = nta.SeedCoherenceAnalyzer(ts.TimeSeries(data[0], sampling_rate=T.sampling_rate),
                                                T, method={"this_method": "welch"})
-                diff("SeedCoherenceAnalyzer.frequencies", lambda: (SE.frequencies, tsu.get_freqs.__wrapped__(fs, 64)))
+                diff("SeedCoherenceAnalyzer.frequencies", lambda: (SE.frequencies, np.linspace(0, fs / 2, 33)))
                 if heavy:
                     MT = nta.MTCoherenceAnalyzer(T)
                     diff("MTCoherenceAnalyzer.frequencies", lambda: (MT.frequencies, np.fft.rfftfreq(n) * fs))
@@ -307,7 +338,7 @@ def run_axis(spec):
             # ---- Granger
             if heavy and n >= 96:
                 G = nta.GrangerAnalyzer(T, order=2, n_freqs=32)
-                diff("GrangerAnalyzer.frequencies", lambda: (G.frequencies, tsu.get_freqs.__wrapped__(fs, 32)))
+                diff("GrangerAnalyzer.frequencies", lambda: (G.frequencies, np.linspace(0, fs / 2, 17)))
 
                 def d_g():
                     from nitime.analysis.granger import fit_model
@@ -691,6 +722,9 @@ def gen_axis_spec(rng, quick, k):
         t0 = 0.0
     nd = [2, 2, 1, 3, 2, 1][k % 6]
     n = rng.choice([64, 65, 96, 97, 100, 128] if quick else [64, 65, 96, 97, 100, 127, 128, 200, 255])
+    large = (k % 11 == 3)
+    if large:   # beyond any block size / fast-path threshold: just above powers of two, odd, prime, even
+        n = rng.choice([1009, 1023, 1025, 2048, 2049, 4097] if quick else [1009, 1025, 2049, 4097, 8191, 8193, 16385])
     if nd == 1:
         shape = [n]
     elif nd == 2:
@@ -698,7 +732,11 @@ def gen_axis_spec(rng, quick, k):
     else:
         shape = [2, rng.randint(1, 3), n]
     spec = {"mode": mode, "x": x.hex(), "t0": float(t0).hex(), "u": u, "shape": shape, "seed": rng.randint(0, 2 ** 31 - 1),
-            "heavy": (k % 5 == 0), "wav_array": rng.random() < 0.6, "log_morlet": rng.random() < 0.3,
+            "heavy": (k % 5 == 0) and (n <= 1100 or k % 3 == 0) and n <= 4100,
+            "wav_array": rng.random() < 0.6, "log_morlet": rng.random() < 0.3,
+            "scale_pow": rng.choice([0, 0, 0, -60, -40, -20, -7, 5, 17, 30, 40]), "offset": rng.choice([0.0, 0.0, 3.0, -7.5, 100.0]),
+            "layout": rng.choice(["C", "C", "F", "strided", "list"]), "derive": rng.choice([None, None, "copy", "time", "positional"]),
+            "alt": rng.random() < 0.35,
             "filt": rng.choice([{"lb": 0.0, "ub_frac": 0.25}, {"lb": 0.05, "ub_frac": 0.3}, {"lb": 0.1, "ub_frac": None},
                                 {"lb": 0.0, "ub_frac": None}, {"lb": 0.0, "ub_frac": 0.4}])}
     if nd <= 2:
